@@ -30,6 +30,9 @@ type execCase struct {
 	CheckFS      bool              `json:"check_fs,omitempty"`
 	Tags         []string          `json:"tags,omitempty"`
 	Note         string            `json:"note,omitempty"`
+	// IgnoreToken is removed from stdout and stderr before they are compared: the text of an input() prompt, which an
+	// implementation may or may not show when standard input is not a terminal.
+	IgnoreToken string `json:"ignore_token,omitempty"`
 }
 
 type execOutcome struct {
@@ -74,6 +77,10 @@ func runExecCase(c execCase) execOutcome {
 		if res.TimedOut {
 			return execOutcome{Kind: "hang", Msg: "script did not terminate within 20 s (reference run is finite)", Script: tr.Script, Res: res}
 		}
+	}
+	if c.IgnoreToken != "" {
+		res.Stdout = strings.ReplaceAll(res.Stdout, c.IgnoreToken, "")
+		res.Stderr = strings.ReplaceAll(res.Stderr, c.IgnoreToken, "")
 	}
 	out := execOutcome{OK: true, Script: tr.Script, Res: res}
 	fail := func(kind, msg string) execOutcome {
